@@ -36,7 +36,11 @@ def corr(rep: C.Report, tier: str):
     lines, real = [], []
     bad_place, bad_keep = 0, 0
     try:
-        for k in range(nrep):
+        # directed family after the random one: every single missing MIXED pair (all diagonal files present) for 2 and 3 particles --
+        # the random victim above is rarely a mixed pair of a multi-particle directory, and a loader that treats an absent (a, b),
+        # a != b, file as "no scattering" would otherwise go unseen; same-size/same-basis so the load itself is the only question
+        directed = [(len(nm), v) for nm in ("AB", "ABC") for v in itertools.permutations(nm, 2)]
+        for k in range(nrep + len(directed)):
             npart = r.choice((1, 2, 2, 3))
             names = ["A", "B", "C"][:npart]
             Nst = r.choice((5, 7, 9))
@@ -44,11 +48,16 @@ def corr(rep: C.Report, tier: str):
             bst = r.choice(("Cardinal", "Chebyshev"))
             breq = r.choice(("Cardinal", "Chebyshev"))
             fault = r.choice(("none", "none", "none", "missing", "size", "basis", "unknown"))
+            if k >= nrep:
+                npart, fault, Nst, gridN, breq = directed[k - nrep][0], "missing", 5, 5, bst
+                names = ["A", "B", "C"][:npart]
             sizes = {(a, b): Nst for a in names for b in names}
             bts = {(a, b): bst for a in names for b in names}
             skip = ()
             pairs = [(a, b) for a in names for b in names]
             victim = r.choice(pairs)
+            if k >= nrep:
+                victim = directed[k - nrep][1]
             if fault == "missing":
                 skip = (victim,)
             elif fault == "size" and len(pairs) > 1:
@@ -84,6 +93,25 @@ def corr(rep: C.Report, tier: str):
             real.append(outcome)
             rep.case(key=(npart, Nst, gridN, bst, breq, fault), sample={"op": lines[-1], "real": outcome} if k < 3 else None)
             rep.count(f"fault {fault} -> {outcome.split(':')[0]}")
+            if skip:
+                # a directory with a file missing is not a complete set: the class method must refuse it too, and the solver
+                # must still hold the array installed before (the statement: complete array OR load error, for every pattern of missing files)
+                try:
+                    CollisionArray.newFromDirectory(d, grid, breq, parts)
+                    direct = "ok"
+                except Exception as ex:  # noqa: BLE001
+                    direct = "error:" + type(ex).__name__
+                rep.count(f"missing {'mixed' if skip[0][0] != skip[0][1] else 'diagonal'} pair of {npart} -> {outcome.split(':')[0]}")
+                if outcome == "ok" or direct == "ok":
+                    i, j = names.index(skip[0][0]), names.index(skip[0][1])
+                    got = solver.collisionArray if outcome == "ok" else CollisionArray.newFromDirectory(d, grid, breq, parts)
+                    rep.violation("a directory with a collision file missing loads without a CollisionLoadError: an incomplete array is installed "
+                                  "in place of the previously loaded one",
+                                  {"dir": lines[-1], "particles": names, "missing_file": f"collisions_{skip[0][0]}_{skip[0][1]}.hdf5",
+                                   "loadCollisions": outcome, "newFromDirectory": direct, "previous_array_kept": solver.collisionArray is sentinel,
+                                   "max_abs_of_block_for_missing_pair": float(np.max(np.abs(got[i, :, :, j, :, :])))},
+                                  finding_key="C14:missing-file-accepted")
+                    continue
             if outcome != "ok":
                 if solver.collisionArray is not sentinel:
                     bad_keep += 1
